@@ -353,6 +353,48 @@ func checkC20(tier string, seed int64) int {
 		c.AddViolation(Violation{Key: f.f.ID, What: fmt.Sprintf("%s (chain depth %d, variant %s, inputs %s): %v", f.f.Msg, f.p.depth, f.p.variant, modelString(f.f.Model), detail["native"]),
 			Replay: map[string]interface{}{"kind": "prog", "src": f.p.src, "entry": "Entry", "params": []Param{{"sel", "int"}, {"d", "int"}}, "results": []string{"int"}, "model": f.f.Model, "mode": 0, "files": f.p.files, "assertion": f.f.ID}})
 	}
+	// package-level code of a package split over files: positions name the file the code is in
+	{
+		files := map[string]string{
+			"main/a_setup.go": "package main\n\nvar ready = 1\n\nvar boot = mk(ready,\n\t0)\n\nfunc helper(x int) int {\n\treturn x + 1\n}\n",
+			"main/b_math.go":  "package main\n\nfunc mk(a int, b int) int {\n\treturn helper(a) /\n\t\tb\n}\n",
+			"main/c_last.go":  "package main\n\nfunc last() int {\n\treturn 3\n}\n\nvar tail = last()\n",
+		}
+		want := "main.mk@main/b_math.go:4 @main/a_setup.go:5"
+		rep := c.Eng.ExploreWith(func(ex *gosx.Exec) {
+			ex.InitPackage(c.Eng.Pkg)
+			res, pan := ex.Call(ex.Func("verifLoadCall"), gosx.MkStringMap(files), "main", "", uint64(0), gosx.MkSlice())
+			if pan != nil {
+				ex.Assert(ex.TT().Bool(false), "C20/host-panic", ex.PanicText(pan), nil)
+				return
+			}
+			o := c.decodeOutcome(ex, res)
+			text := ""
+			if o.hasEvalErr {
+				text, _ = gosx.Lit(o.evalErr)
+			}
+			got := filePosSeq(text)
+			if got != want {
+				ex.Assert(ex.TT().Bool(false), "C20/pkglevel/positions", fmt.Sprintf("package-level fault reported as [%s], expected [%s]", got, want), nil)
+			}
+		}, "z3", 1)
+		agg.Add(rep)
+		for _, f := range rep.Failures {
+			// native confirmation: the same Load, the same expectation
+			var gr nativeProgResp
+			req := map[string]interface{}{"Op": "prog", "Prog": map[string]interface{}{"Src": "package main\n", "Files": files, "Pkg": "main", "Entry": "", "NRes": 0, "Mode": 0}}
+			_, err := c.Native.RunOnce(req, &gr, 60)
+			c.replays++
+			if err == nil && filePosSeq(gr.EvalErr) == want {
+				c.mismatch++
+				fmt.Printf("ENGINE-MISMATCH %s native=%q\n", f.ID, gr.EvalErr)
+				continue
+			}
+			c.AddViolation(Violation{Key: f.ID, What: f.Msg + fmt.Sprintf("; native error text %q", truncate(gr.EvalErr, 200)),
+				Replay: map[string]interface{}{"kind": "prog", "src": "package main\n", "entry": "", "params": []Param{}, "results": []string{}, "model": f.Model, "mode": 0, "files": files, "assertion": f.ID}})
+		}
+		c.Assumption("package-level positions: a three-file package whose initialiser in one file calls, over two lines, a function in another file that divides by zero over two lines; the Load error must name function, file and line of the fault and file and line of the initialiser")
+	}
 	agg.Into(c, "")
 	// packed-position lemma (shape L): symbolic line and column through the real newPos / pos.info
 	lagg := NewAgg()
@@ -414,6 +456,21 @@ func (c *Ctx) replayC20(p *chainProg, f gosx.Failure) (bool, map[string]interfac
 	}
 	return bad != "", map[string]interface{}{"native": bad}
 }
+
+// filePosSeq extracts the sequence of function@file:line entries of an error text.
+func filePosSeq(text string) string {
+	var out []string
+	for _, l := range strings.Split(strings.TrimPrefix(text, "error in run: "), "\n") {
+		if m := btLineRE.FindStringSubmatch(l); m != nil {
+			out = append(out, m[1]+"@"+m[2]+":"+m[3])
+		} else if m := bareLineRE.FindStringSubmatch(l); m != nil {
+			out = append(out, "@"+m[1]+":"+m[2])
+		}
+	}
+	return strings.Join(out, " ")
+}
+
+var bareLineRE = regexp.MustCompile(`(?:^|: |\t)([A-Za-z0-9_./]+\.go):(\d+):\d+`)
 
 // posSeq extracts the sequence of (function, line) pairs of an error text.
 func posSeq(text string) string {
